@@ -26,6 +26,20 @@ pub mod c32_signed_packet;
 pub mod c33_timestamps;
 pub mod c34_stagger;
 pub mod c35_resolve_host_all;
+pub mod c36_zone_signer;
+pub mod c37_newest_packet;
+pub mod c38_stale_cache;
+pub mod c39_store_crash;
+pub mod c09_rate_limit;
+pub mod c10_relay_frames;
+pub mod c12_auth_token;
+pub mod c14_ping_tracker;
+pub mod c43_relay_map;
+pub mod c26_home_relay;
+pub mod c27_net_report_aggregation;
+pub mod c28_preferred_relay;
+pub mod c29_lookup_stream;
+pub mod c30_lookup_publish;
 pub mod c02_encodings;
 pub mod c03_handshake;
 pub mod c04_forwarding;
@@ -64,6 +78,20 @@ pub const REGISTRY: &[Prop] = &[
     Prop { id: "C33", level: "exploration", watchdog_quick_s: 600, watchdog_thorough_s: 3600, run: c33_timestamps::run },
     Prop { id: "C34", level: "exploration", watchdog_quick_s: 600, watchdog_thorough_s: 3600, run: c34_stagger::run },
     Prop { id: "C35", level: "exploration", watchdog_quick_s: 600, watchdog_thorough_s: 3600, run: c35_resolve_host_all::run },
+    Prop { id: "C36", level: "exploration", watchdog_quick_s: 1800, watchdog_thorough_s: 7200, run: c36_zone_signer::run },
+    Prop { id: "C37", level: "exploration", watchdog_quick_s: 1800, watchdog_thorough_s: 7200, run: c37_newest_packet::run },
+    Prop { id: "C38", level: "exploration", watchdog_quick_s: 1800, watchdog_thorough_s: 7200, run: c38_stale_cache::run },
+    Prop { id: "C39", level: "fault_enumeration", watchdog_quick_s: 3600, watchdog_thorough_s: 14400, run: c39_store_crash::run },
+    Prop { id: "C09", level: "exploration", watchdog_quick_s: 900, watchdog_thorough_s: 5400, run: c09_rate_limit::run },
+    Prop { id: "C10", level: "exploration", watchdog_quick_s: 900, watchdog_thorough_s: 5400, run: c10_relay_frames::run },
+    Prop { id: "C12", level: "exploration", watchdog_quick_s: 600, watchdog_thorough_s: 3600, run: c12_auth_token::run },
+    Prop { id: "C14", level: "exploration", watchdog_quick_s: 600, watchdog_thorough_s: 3600, run: c14_ping_tracker::run },
+    Prop { id: "C43", level: "exploration", watchdog_quick_s: 900, watchdog_thorough_s: 5400, run: c43_relay_map::run },
+    Prop { id: "C26", level: "exploration", watchdog_quick_s: 900, watchdog_thorough_s: 3600, run: c26_home_relay::run },
+    Prop { id: "C27", level: "exploration", watchdog_quick_s: 600, watchdog_thorough_s: 3600, run: c27_net_report_aggregation::run },
+    Prop { id: "C28", level: "exploration", watchdog_quick_s: 600, watchdog_thorough_s: 3600, run: c28_preferred_relay::run },
+    Prop { id: "C29", level: "exploration", watchdog_quick_s: 600, watchdog_thorough_s: 3600, run: c29_lookup_stream::run },
+    Prop { id: "C30", level: "exploration", watchdog_quick_s: 900, watchdog_thorough_s: 3600, run: c30_lookup_publish::run },
 ];
 
 /// In-target oracles of the libFuzzer targets (see /verif/fuzzing/fuzz).  Panics on a violation.
